@@ -85,7 +85,7 @@ pub fn ls_check(id: &str) -> Option<LsCheck> {
             id: "C03",
             profile: Profile {
                 name: "ttl-visibility",
-                cap: Cap::Ample,
+                cap: Cap::Mixed,
                 modes: vec![Mode::Quiescent],
                 ttl_pct: 75,
                 buffer_sizes: vec![64],
@@ -105,7 +105,7 @@ pub fn ls_check(id: &str) -> Option<LsCheck> {
             },
             quick: 24_000,
             thorough: 400_000,
-            rule: "quiescent lock-step cases under a virtual clock, ample capacity, TTLs from 1ns to 1h, advances aimed at second boundaries and deadlines +-1ns; non-trivial = a lookup within 1s of the key's deadline or within 1ns of a second boundary, or a TTL<->no-TTL re-insert followed by a cleanup tick; distinct by case hash",
+            rule: "quiescent lock-step cases under a virtual clock, ample capacity in a third of the cases and tight capacity (evictions) in the rest, TTLs from 1ns to 1h, advances aimed at second boundaries and deadlines +-1ns; non-trivial = a lookup within 1s of the key's deadline or within 1ns of a second boundary, or a TTL<->no-TTL re-insert followed by a cleanup tick; distinct by case hash",
             nontrivial: |f| f.ttl_boundary_lookups > 0 || f.ttl_switch_then_tick > 0,
             assumptions: &["time is the virtual clock served to SystemTime::now() (monotone)"],
             scenario: Some(clear_reuse_scenario),
